@@ -1243,7 +1243,7 @@ func (rl *Shell) abort() {
 	rl.selection.Reset()
 
 	// Cancel active completion insertion and/or incremental search.
-	if rl.completer.AutoCompleting() || rl.completer.IsInserting() {
+	if rl.completer.AutoCompleting() || rl.completer.IsInserting() || rl.Keymap.Local() == keymap.MenuSelect {
 		rl.Hint.Reset()
 		rl.completer.ResetForce()
 
